@@ -617,6 +617,12 @@ func callWorker(req N) (resp N) {
 	hostCtx := baseCtx
 	if src == "ctx" || src == "ctxwarm" {
 		hostCtx = ros.WithOS(baseCtx, host)
+	} else if src == "ctxover" {
+		// the host derives its context from one that already carries ANOTHER OS (a sandbox built inside a host
+		// callback of an outer evaluation): the OS placed last is the one in force
+		outer := ros.NewVirtualOS(baseCtx, ros.WithStdout(ros.NewBufferFile(nil)),
+			ros.WithEnvironment(map[string]string{"VERIF_SENTINEL": "OUTER-env"}), ros.WithCwd("/"))
+		hostCtx = ros.WithOS(ros.WithOS(baseCtx, outer), host)
 	}
 	globals := map[string]any{
 		"__mark": object.NewBuiltin("__mark", func(ctx context.Context, args ...object.Object) object.Object {
